@@ -604,3 +604,65 @@ def check_plain_valid(run, mp, mv):
 
 RULES['SIB.plain-valid'] = ('the plain kernel ts_X and the null-aware kernel ts_vX are the same '
                             'state machine and closed form once the null guards are erased')
+
+
+def check_len_free(run, k):
+    """LEN.free: nothing the kernel closure reads is computed from the length of the series
+    (the length is information about positions to the right of the cursor).  The window handed to
+    the driver and the statements before the call may use it (clamping the window, the default
+    min_periods); the closure may not see a value derived from it, except the gate threshold
+    when it comes from an omitted min_periods."""
+    from facts import walk, peel
+    tainted = {}          # local id -> how
+    def mentions_len(e):
+        for x in walk(e):
+            if x.get('k') == 'MethodCall' and x.get('method') == 'len' and \
+                    peel(x['ch'][0]).get('k') == 'Path' and peel(x['ch'][0]).get('name') == 'self':
+                return 'self.len()'
+            if x.get('k') == 'Path' and x.get('res') == 'local' and x.get('local') in tainted:
+                return tainted[x['local']]
+        return None
+    gate_ok = set()
+    for st in k.pre:
+        if st['k'] != 'Let' or 'init' not in st:
+            continue
+        why = mentions_len(st['init'])
+        if not why:
+            continue
+        for b in _binds(st['pat']):
+            tainted[b['local']] = '%s <- %s' % (b['name'], why)
+            # `min_periods.unwrap_or(<len-derived default>)`: only the omitted case is
+            # length-dependent, which the property leaves out for short series
+            init = peel(st['init'])
+            x = init
+            while x.get('k') == 'MethodCall' and x.get('method') in ('min', 'max', 'min_with', 'max_with'):
+                x = peel(x['ch'][0])
+            if x.get('k') == 'MethodCall' and x.get('method') in ('unwrap_or', 'unwrap_or_else', 'map_or') and \
+                    not mentions_len(x['ch'][0]) and init is x:
+                gate_ok.add(b['local'])
+    inner = {b['local'] for x in walk(k.closure) if x.get('k') == 'Block' for st in x.get('stmts', [])
+             if st['k'] == 'Let' for b in _binds(st['pat'])}
+    used = {}
+    from facts import walk_with_parents
+    # a position test `end >= window - 1` (is the window full?) is what the driver itself
+    # decides from the same window: comparing the clamped window with the position is allowed
+    pos_params = {b['local'] for p_ in k.closure.get('params', [])[:2] for b in _binds(p_)} if k.idx else set()
+    for x, parents in walk_with_parents(k.closure):
+        if x.get('k') == 'Path' and x.get('res') == 'local' and x.get('local') in tainted and \
+                x['local'] not in inner and x['local'] not in gate_ok:
+            par = next((p_ for p_ in reversed(parents) if peel(p_) is not x and
+                        p_.get('k') not in ('Cast', 'Paren', 'DropTemps')), None)
+            if par is not None and par.get('k') == 'Binary' and par.get('op') in ('Ge', 'Gt', 'Le', 'Lt', 'Eq', 'Ne'):
+                other = [peel(c) for c in par['ch'] if peel(c) is not x]
+                if other and other[0].get('k') == 'Path' and other[0].get('local') in pos_params:
+                    continue
+            used[x['local']] = tainted[x['local']]
+    run.ob('LEN.free', k.fn, 'closure reads no length-derived value', not used, loc(k.closure),
+           'length-derived captures: %s' % sorted(used.values()) if used else
+           'captures derive from the parameters only (%d length-derived local(s) stay outside the closure)'
+           % len(tainted))
+
+
+def _binds(p):
+    from facts import _pat_binds
+    return _pat_binds(p)
